@@ -115,14 +115,14 @@ pub fn family_main(o: &Opts, prop: &str, seed_tag: u64, default_strata: &str, de
     let mut r = Rng::new(o.seed ^ seed_tag);
     let mut cat = gen_catalog(&mut r, &copts);
     let mut n = 0usize; let mut attempts = 0usize;
-    let big = o.get_usize("big", 1) == 1; let mut big_now = false;
+    let big = o.get("big").unwrap_or("1") != "0"; let big_huge = o.get("big").unwrap_or("1") == "1"; let mut big_now = false;   // big=small: only the ~1025-row class
     while n < o.cases && attempts < o.cases * 4 + 16 {
         if attempts % per_cat == 0 {
             // size stream (`--opt big=0` switches it off): the 4th catalog of a run has a table just above 1024 rows, the 8th one above 8192
             let k = attempts / per_cat;
             let mut co = copts.clone();
             if big && k == 3 { co.big_rows = Some(*r.pick(&[1001usize, 1025, 1100, 2049])); }
-            if big && k == 7 { co.big_rows = Some(*r.pick(&[8193usize, 8200, 10001])); }
+            if big && big_huge && k == 7 { co.big_rows = Some(*r.pick(&[8193usize, 8200, 10001])); }
             cat = gen_catalog(&mut r, &co);
             big_now = co.big_rows.is_some();
         }
